@@ -89,6 +89,12 @@ func (h resumeHarness) Gen(r *verifsim.SplitMix, tier string, idx int) any {
 	for i := 0; i < n; i++ {
 		sp.Chain = append(sp.Chain, genLink(r))
 	}
+	if h.prop == "C06" && r.Chance(2, 5) {
+		// a prior state written directly (every bitmap shape, in particular ones an
+		// interrupted run rarely leaves), then damaged
+		sp.Chain = nil
+		sp.Damage = append(sp.Damage, txDamage{Kind: "synthetic", File: r.Intn(8), Arg: r.Intn(1 << 20)})
+	}
 	if h.prop == "C06" {
 		nd := 1 + r.Intn(2)
 		for i := 0; i < nd; i++ {
@@ -352,6 +358,9 @@ func runEpisodeTracked(cfg epCfg, lastGood map[string][]byte) *epResult {
 
 var trackOps func(op *verifsim.FSOp)
 
+// syntheticSrc is the source root used when a prior state is written directly.
+var syntheticSrc string
+
 // tornChunks lists (file key, chunk index) pairs damaged by tear_highest in the current history.
 var tornChunks [][2]uint64
 
@@ -371,6 +380,55 @@ func applyDamage(sp *txSpec, out string, m manifest.Manifest, d txDamage) string
 	dataPath := filepath.Join(base, filepath.FromSlash(it.RelPath))
 	raw, scErr := os.ReadFile(scPath)
 	switch d.Kind {
+	case "synthetic":
+		total := chunkTotalRef(it.Size, sp.Chunk)
+		if total == 0 {
+			return ""
+		}
+		content, err := os.ReadFile(syntheticSrc + "/" + it.RelPath)
+		if err != nil {
+			return ""
+		}
+		os.MkdirAll(filepath.Dir(dataPath), 0o755)
+		out := make([]byte, it.Size)
+		os.Remove(scPath)
+		sc, err := CreateSidecar(scPath, it.ID, it.Size, sp.Chunk)
+		if err != nil {
+			return ""
+		}
+		r := verifsim.NewSplitMix(uint64(d.Arg))
+		mark := func(i uint32) {
+			lo := int64(i) * int64(sp.Chunk)
+			hi := lo + int64(sp.Chunk)
+			if hi > it.Size {
+				hi = it.Size
+			}
+			copy(out[lo:hi], content[lo:hi])
+			sc.MarkComplete(i)
+		}
+		switch d.Arg % 5 {
+		case 0: // only the first chunk
+			mark(0)
+		case 1: // a prefix
+			n := 1 + uint32(r.Intn(int(total)))
+			for i := uint32(0); i < n; i++ {
+				mark(i)
+			}
+		case 2: // holes
+			for i := uint32(0); i < total; i++ {
+				if r.Chance(1, 2) {
+					mark(i)
+				}
+			}
+		case 3: // everything
+			for i := uint32(0); i < total; i++ {
+				mark(i)
+			}
+		case 4: // only the last chunk
+			mark(total - 1)
+		}
+		sc.Flush()
+		os.WriteFile(dataPath, out, 0o644)
 	case "truncate":
 		if scErr != nil || len(raw) == 0 {
 			return ""
@@ -442,7 +500,13 @@ func applyDamage(sp *txSpec, out string, m manifest.Manifest, d txDamage) string
 		if err != nil {
 			return ""
 		}
-		hi, ok := sc.HighestComplete()
+		// (found with the harness' own scan, not with the code under test)
+		hi, ok := -1, false
+		for i := 0; i < int(sc.TotalChunks); i++ {
+			if sc.bitmap.Get(i) {
+				hi, ok = i, true
+			}
+		}
 		if !ok {
 			return ""
 		}
@@ -525,6 +589,16 @@ func (h resumeHarness) Run(spec any) (res verifsim.RunResult) {
 		if len(cr.eps) > 0 {
 			last = cr.eps[len(cr.eps)-1]
 		}
+		if last == nil && h.prop == "C06" {
+			// no interrupted run: the prior state is written directly by a "synthetic" damage
+			m0, _, _, err := scanFor(&sp, src)
+			if err != nil {
+				continue
+			}
+			last = &epResult{manifest: m0}
+			os.MkdirAll(sp.outBase(out, m0), 0o755)
+		}
+		syntheticSrc = src
 		mk := func(class, sig, detail string, ep *epResult) *verifsim.Violation {
 			v := &verifsim.Violation{Class: class, Signature: sig, Detail: detail}
 			if ep != nil {
@@ -679,6 +753,16 @@ func siteClass(site string) string {
 // strongestDamage names the damage kind a finding is attributed to, so that
 // an unrelated second damage in the same history does not change its identity.
 func strongestDamage(kinds []string) string {
+	var real []string
+	for _, k := range kinds {
+		if k != "synthetic" {
+			real = append(real, k)
+		}
+	}
+	if len(real) == 0 {
+		return "synthetic-only"
+	}
+	kinds = real
 	for _, k := range []string{"tear_highest", "data_deleted", "data_shortened", "foreign_size", "foreign_chunk", "foreign_id", "bitflip", "truncate", "garbage", "tmp_leftover"} {
 		for _, x := range kinds {
 			if x == k {
